@@ -207,6 +207,21 @@ func runC02(c *Ctx) {
 		l.ProtWidth = gen.HeadWidths[i%5]
 		wm := &gen.WSign1{L: l, Payload: gen.Payload(r, false), PayloadWidth: mon.Pick(r, 0, 0, 2, 3, 5, 9), Sig: mon.FixedSig, SigWidth: mon.Pick(r, 0, 0, 3, 9), Tagged: r.Bool()}
 		b := wm.Bytes()
+		if i%20 == 7 && len(l.Content()) > 1 {
+			// outside the documented limits: the protected bstr sent with indefinite length (two chunks).
+			// The decoder may refuse it; if it accepts, ToBeSigned must still be the RFC structure.
+			if t, err := gen.ParseTree(b); err == nil {
+				body := t.Root
+				if body.Major == refcbor.Tag {
+					body = body.Kids[0]
+				}
+				c0 := l.Content()
+				half := len(c0) / 2
+				delete(t.Emb, body.Kids[0])
+				body.Kids[0] = &refcbor.Node{Major: refcbor.Bstr, Indef: true, Str: c0, Kids: []*refcbor.Node{refcbor.NBstr(c0[:half]), refcbor.NBstr(c0[half:])}}
+				b = t.Seal()
+			}
+		}
 		canonInner := true
 		if len(l.Content()) > 0 {
 			canonInner, _ = refcbor.IsCanonical(l.Content())
